@@ -184,7 +184,16 @@ static void op_nt_rec(int argc, char **argv) {
 		if (!strcmp(kind, "win")) { bn_rec_win((uint8_t *)naf, &len, k, w); is_unsigned = 1; }
 		else if (!strcmp(kind, "slw")) { bn_rec_slw((uint8_t *)naf, &len, k, w); is_unsigned = 1; }
 		else if (!strcmp(kind, "naf")) bn_rec_naf(naf, &len, k, w);
-		else if (!strcmp(kind, "reg")) bn_rec_reg(naf, &len, k, (size_t)l->dp[0], w);
+		else if (!strcmp(kind, "reg")) {
+			/* the bit length argument is a plain integer: take it from all digits (a digit is 8 bits wide in the w8 build) */
+			size_t nb = 0;
+#if RLC_DIG >= 64
+			nb = (size_t)l->dp[0];
+#else
+			for (int i = l->used - 1; i >= 0; i--) nb = (nb << RLC_DIG) | l->dp[i];
+#endif
+			bn_rec_reg(naf, &len, k, nb, w);
+		}
 		else if (!strcmp(kind, "jsf")) {
 			int i = bn_bits(k), j = bn_bits(l);
 			jsf_off = (i > j ? i : j) + 1;
